@@ -124,6 +124,7 @@ Definition persist (m : machine) : M bool :=
 
 Section Engine.
 Variable tc : tl_consts.
+Variable decode : string -> option (string * Z * Z).
 Variable t : table.
 Variable terminal : list string.     (* states for which IsFinished holds *)
 
@@ -147,7 +148,7 @@ Fixpoint event_loop (fuel : nat) (m : machine) (ev : string) : M (machine * resu
         | Some act =>
           let m1 := m <| m_prev := m_cur m |> <| m_cur := nxt |>
                       <| m_data := (m_data m) <| d_fsm_state := nxt |> |> in
-          r <- exec tc action_fuel act (m_data m1) ;;
+          r <- exec tc decode action_fuel act (m_data m1) ;;
           let '(ev', d') := r in
           let m2 := m1 <| m_data := d' |> in
           if String.eqb ev' Ev_Panic then ret (m2, mkResult false ErrPanic) else
@@ -200,7 +201,7 @@ Definition recover (m : machine) : M (machine * result) :=
     | None => ret (m, mkResult false ErrFsmConfig)
     | Some act =>
       if st_fail_on_recover sd then send_event m Ev_Failed None else
-      r <- exec tc action_fuel act (m_data m) ;;
+      r <- exec tc decode action_fuel act (m_data m) ;;
       let '(ev', d') := r in
       let m1 := m <| m_data := d' |> in
       if String.eqb ev' Ev_Panic then ret (m1, mkResult false ErrPanic) else
@@ -261,7 +262,7 @@ Definition step (m : machine) (i : input) : M outcome :=
   end.
 
 Definition run_step (m : machine) (i : input) (w : world) : outcome * world * list effect :=
-  step m i w [].
+  step m i w.
 
 End Engine.
 
